@@ -48,6 +48,7 @@ structure Entry where
   hasCapsXattr : Option Bool := none
   arc : Option ArcInfo := none
   unreadable : Bool := false       -- the content cannot be opened (permission denied, dangling link)
+  linkTarget : Option Str := none  -- `read_link` of a symbolic link (raw text)
   deriving Repr
 
 structure Config where
